@@ -4,6 +4,7 @@ import (
 	"strings"
 
 	"google.golang.org/protobuf/proto"
+	"google.golang.org/protobuf/reflect/protoreflect"
 	"google.golang.org/protobuf/types/descriptorpb"
 )
 
@@ -11,7 +12,10 @@ import (
 // package, or just "v3" for the empty package) and whose file paths start with pfx + "/", with every
 // reference to a declaration of the set rewritten. Several such copies (and one unprefixed set) can
 // be linked into one program without clashing in protoregistry.GlobalFiles / GlobalTypes. The copy is
-// again a valid set: it is the same schema in another package.
+// again a valid set: it is the same schema in another package. Custom options cannot be moved that
+// way (their extendees are the google.protobuf.*Options messages, the numbers are fixed and their
+// uses are unknown fields of options messages), so the copy drops their declarations, their uses and
+// the source info (whose paths index the declarations); the unprefixed unit of a program keeps them.
 func prefixSet(files []*descriptorpb.FileDescriptorProto, pfx string) []*descriptorpb.FileDescriptorProto {
 	if pfx == "" {
 		return files
@@ -88,6 +92,17 @@ func prefixSet(files []*descriptorpb.FileDescriptorProto, pfx string) []*descrip
 				walk(m.NestedType)
 			}
 		}
+		c.SourceCodeInfo = nil
+		c.Extension = dropCustom(c.Extension)
+		var strip func(ms []*descriptorpb.DescriptorProto)
+		strip = func(ms []*descriptorpb.DescriptorProto) {
+			for _, m := range ms {
+				m.Extension = dropCustom(m.Extension)
+				strip(m.NestedType)
+			}
+		}
+		strip(c.MessageType)
+		dropUnknown(c.ProtoReflect())
 		fields(c.Extension)
 		walk(c.MessageType)
 		for _, sv := range c.Service {
@@ -98,4 +113,41 @@ func prefixSet(files []*descriptorpb.FileDescriptorProto, pfx string) []*descrip
 		}
 	}
 	return out
+}
+
+func dropCustom(xs []*descriptorpb.FieldDescriptorProto) []*descriptorpb.FieldDescriptorProto {
+	var out []*descriptorpb.FieldDescriptorProto
+	for _, x := range xs {
+		if !strings.HasPrefix(x.GetExtendee(), ".google.protobuf.") {
+			out = append(out, x)
+		}
+	}
+	return out
+}
+
+// dropUnknown removes unknown fields (uses of custom options) everywhere below m.
+func dropUnknown(m protoreflect.Message) {
+	if len(m.GetUnknown()) > 0 {
+		m.SetUnknown(nil)
+	}
+	m.Range(func(fd protoreflect.FieldDescriptor, v protoreflect.Value) bool {
+		switch {
+		case fd.IsMap():
+		case fd.IsList():
+			if fd.Message() != nil {
+				for i := 0; i < v.List().Len(); i++ {
+					dropUnknown(v.List().Get(i).Message())
+				}
+			}
+		case fd.Message() != nil:
+			sub := v.Message()
+			dropUnknown(sub)
+			empty := len(sub.GetUnknown()) == 0
+			sub.Range(func(protoreflect.FieldDescriptor, protoreflect.Value) bool { empty = false; return false })
+			if empty { // an options message that only held custom options: absent in the canonical form
+				m.Clear(fd)
+			}
+		}
+		return true
+	})
 }
